@@ -156,13 +156,14 @@ def _unpatch():
 
 def routes(ng: int, npost: int, r1: int, m1: int, r2: int, m2: int, bad: int, redefine: bool, pa: int, pb: int) -> bool:
     """
-    pre: 0 <= ng <= 3 and 0 <= npost <= 3 and ng == CFG.get('ng', ng)
-    pre: 0 <= r1 <= 2 and 0 <= r2 <= 2
+    pre: 0 <= ng <= 3 and 0 <= npost <= 3 and ng == CFG.get('ng', ng) and npost == CFG.get('npost', npost)
+    pre: 0 <= r1 <= 2 and 0 <= r2 <= 1
     pre: 0 <= m1 <= 1 and 0 <= m2 <= 1
-    pre: -1 <= bad <= 5
-    pre: 0 <= pa <= 3 and 0 <= pb <= 3
+    pre: -1 <= bad <= 1
+    pre: 0 <= pa <= 3 and pb == 0
     post: _
     """
+    # r2: 0 = the same route again, 1 = the next route;  bad: -1 nobody raises, 0 / 1 = the handler of the first / second request raises
     # ng GET routes /g0.. and npost POST routes /p0..; route i is handled by handler number i (GET) / 10+i (POST);
     # two requests (route r, method m); handler number `bad` raises; the handler of the first request may be redefined in between
     enter()
@@ -180,8 +181,11 @@ def routes(ng: int, npost: int, r1: int, m1: int, r2: int, m2: int, bad: int, re
             K('hp%d::{rec(%d;x)}' % (i, 10 + i)); K('post,"/p%d",hp%d' % (i, i))
         # entries the server must skip: a dyad and a function call
         K('dy::{x+y}'); K('get,"/dyad",dy')
-        if bad >= 0:
-            RAISE.add(bad if bad < 3 else 10 + (bad - 3))
+        r2 = r1 if r2 == 0 else (r1 + 1) % 3
+        if bad == 0:
+            RAISE.add(r1 if m1 == 0 else 10 + r1)
+        elif bad == 1:
+            RAISE.add(r2 if m2 == 0 else 10 + r2)
         K['.system'] = {'ioloop': _Loop()}
         handle = WEB.eval_sys_fn_create_web_server(K, 8080, K('get'), K('post'))
         app = _Site.sites[0].runner.app if _Site.sites else None
@@ -191,7 +195,7 @@ def routes(ng: int, npost: int, r1: int, m1: int, r2: int, m2: int, bad: int, re
         if sorted(gets) != ["/g%d" % i for i in range(ng)] or sorted(posts) != ["/p%d" % i for i in range(npost)]:
             return verdict(False)                       # exactly the arity-1 handlers are registered (no /dyad)
         params = [{}, {"a": "1"}, {"a": "x y", "b": ""}, {"k": "é\n"}]
-        reqs = [(r1, m1, pick(params, pa)), (r2, m2, pick(params, pb))]
+        reqs = [(r1, m1, pick(params, pa)), (r2, m2, params[2])]
         for qi, (r, m, prm) in enumerate(reqs):
             table = gets if m == 0 else posts
             route = ("/g%d" if m == 0 else "/p%d") % r
@@ -340,6 +344,8 @@ def obligations(tier):
     q = tier == "quick"
     obs = []
     for ng in range(4):
-        obs.append({"name": "http routes, %d GET routes" % ng, "fn": "routes", "cfg": {"ng": ng}, "timeout": 400 if q else 1500})
+        for npost in range(4):
+            obs.append({"name": "http routes, %d GET / %d POST routes" % (ng, npost), "fn": "routes", "cfg": {"ng": ng, "npost": npost},
+                        "timeout": 400 if q else 1500})
     obs.append({"name": "websocket messages", "fn": "ws_messages", "cfg": {}, "timeout": 300})
     return obs
